@@ -16,6 +16,7 @@ from __future__ import annotations
 
 import copy
 import itertools
+import json
 from dataclasses import dataclass, replace
 
 from .common import cbool, civl, clist, coz, cz, ensure_repo_import
@@ -150,26 +151,30 @@ def pyval(v):
 
 
 def build(t, env=None, leaf_hook=None, _memo=None):
-    """Build the real calgebra object.  Two stored leaves with identical content are ONE Python
-    object (users reuse timeline objects: `(a & b) & (a & c)`), so aliasing inside an n-ary
-    node is exercised."""
+    """Build the real calgebra object.  Equal sub-expressions (in particular equal stored leaves) are
+    ONE Python object — users reuse timeline objects: `(a & b) & (a & c)`, `free = work - busy;
+    (free & x) | (free & y)` — so aliasing inside a tree, and two live evaluations of one node, are
+    exercised."""
     if _memo is None:
         _memo = {}
-    real = _build(t, env, leaf_hook, _memo)
-    return real
+    return _build(t, env, leaf_hook, _memo)
 
 
 def _build(t, env, leaf_hook, memo):
+    key = json.dumps(t, sort_keys=True)
+    if key in memo and not (t["op"] == "stored" and not t["evs"]):
+        return memo[key]
+    obj = _build1(t, env, leaf_hook, memo)
+    memo[key] = obj
+    return obj
+
+
+def _build1(t, env, leaf_hook, memo):
     build = lambda x, e, h: _build(x, e, h, memo)      # noqa: E731
     op = t["op"]
     if op == "stored":
-        key = repr(t["evs"])
-        if key in memo and t["evs"]:
-            return memo[key]
         tl = timeline(*[mk_event(e, env) for e in t["evs"]])
-        tl = leaf_hook(tl, t) if leaf_hook else tl
-        memo[key] = tl
-        return tl
+        return leaf_hook(tl, t) if leaf_hook else tl
     if op == "or":
         return build(t["l"], env, leaf_hook) | build(t["r"], env, leaf_hook)
     if op == "and":
@@ -193,10 +198,24 @@ def srcmap_of(t, env=None):
     return {e[2]: mk_event(e, env) for e in all_events(t) if e[2] is not None}
 
 
-def run_slice(t, a, b, rev, env=None):
+def _focus(t, env, ctx, warm):
+    """The object of expression t.  With a context tree ctx (which contains t as a sub-expression):
+    t's object is the very object embedded in ctx's, built first; the warm-up queries are then run to
+    completion on the context's root — evaluating or composing an expression must not change what
+    its sub-expressions answer afterwards."""
+    memo = {}
+    if ctx is not None:
+        root = _build(ctx, env, None, memo)
+        for (a, b, rev) in (warm or []):
+            for _ in root[slice(a, b, -1 if rev else None)]:
+                pass
+    return _build(t, env, None, memo)
+
+
+def run_slice(t, a, b, rev, env=None, ctx=None, warm=None):
     """Slice the real expression; returns the observation list or {"err": kind}."""
     try:
-        tl = build(t, env)
+        tl = _focus(t, env, ctx, warm)
         sm = srcmap_of(t, env)
         sl = slice(a, b, -1 if rev else None)
         return [obs_event(r, sm) for r in tl[sl]]
@@ -204,19 +223,19 @@ def run_slice(t, a, b, rev, env=None):
         return {"err": type(ex).__name__}
 
 
-def run_fetch(t, a, b, rev, env=None):
+def run_fetch(t, a, b, rev, env=None, ctx=None, warm=None):
     """Raw fetch (no clipping by the window)."""
     try:
-        tl = build(t, env)
+        tl = _focus(t, env, ctx, warm)
         sm = srcmap_of(t, env)
         return [obs_event(r, sm) for r in tl.fetch(a, b, reverse=rev)]
     except (ValueError, TypeError) as ex:
         return {"err": type(ex).__name__}
 
 
-def run_overlapping(t, p, env=None):
+def run_overlapping(t, p, env=None, ctx=None, warm=None):
     try:
-        tl = build(t, env)
+        tl = _focus(t, env, ctx, warm)
         sm = srcmap_of(t, env)
         return [obs_event(r, sm) for r in tl.overlapping(p)]
     except (ValueError, TypeError) as ex:
@@ -384,9 +403,20 @@ class Gen:
         return {"op": "stored", "evs": evs}
 
     def tree(self, depth, ops, leaf_mode=None, rich=None):
+        t = self._tree(depth, ops, leaf_mode, rich)
+        if t["op"] != "stored":
+            self.subtrees = (getattr(self, "subtrees", []) if self.next_id > 1 else []) + [t]
+        return t
+
+    def _tree(self, depth, ops, leaf_mode=None, rich=None):
         r = self.rng
         if depth <= 0 or r.random() < 0.25:
             return self.leaf(leaf_mode, rich)
+        subs = getattr(self, "subtrees", []) if self.next_id > 1 else []
+        if subs and r.random() < 0.06:
+            # the same composite object used twice in one expression: free = work - busy;
+            # (free & x) | (free & y)
+            return copy.deepcopy(r.choice(subs))
         op = r.choice(ops)
         if op in ("or", "and", "sub"):
             return {"op": op, "l": self.tree(depth - 1, ops, leaf_mode, rich),
